@@ -273,7 +273,7 @@ def _(c):
     f, w_ = _edge(c, "_keplerian_to_keplerian_eccentric")
     g, _ = _edge(c, "_keplerian_eccentric_to_keplerian")
     why = "|sinh_E/cosh_E| < 1 for e > 1 inside the asymptotes (follows from cosh^2 - sinh^2 = 1 > 0); exercised by the bounded stand-in"
-    c.run.safety_assumed = {"arctanh": why}
+    c.run.safety_assumed = {}
     out = f([a, e, i, O, wp, nu])
     H = out[5]
     r_nu = a * (1 - e * e) / den
@@ -337,10 +337,10 @@ def _(c):
         return
     e, M = c.real("e", lo=0, lo_strict=False), c.real("M")
     hyper = c.choice("kind", [False, True])
-    c.require(e >= 1 if hyper else e < 1)
+    c.require(e > 1 if hyper else e < 1)
     tol = sym.SReal(sym.rv(sym.Fraction(1, 10 ** 8)))
     why = "denominators 1 - e cos E > 0 (e < 1) and e cosh H - 1 > 0 (e > 1, H != 0) -- the latter is not provable at H = 0, e = 1; bounded stand-in covers the domain e >= 1.001"
-    c.run.safety_assumed = {"div": why}
+    c.run.safety_assumed = {}
     w = c.world(loops={f"{FORM}.M2E#{1 if hyper else 0}": _m2e_spec(e, M, tol, hyper)})
     cls = w.cls(FORM)
     c.run.trig_resolve = False
